@@ -25,7 +25,7 @@ try:
             p = subprocess.run("/verif/bin/kvlint check %s --tier quick --no-write --repo %s --verif /verif" % (i, wt), shell=True, stdout=subprocess.PIPE, stderr=subprocess.STDOUT, text=True, env=ENV)
             return i, p.stdout
         caught = {}
-        with ThreadPoolExecutor(max_workers=3) as ex:
+        with ThreadPoolExecutor(max_workers=5) as ex:
             for i, o in ex.map(run, ids):
                 reps = re.findall(r"rule=(\S+) verdict=(?:violation|undecided) construct=(\S+)", o)
                 if reps:
